@@ -218,9 +218,8 @@ def diag_variables(layer: str, s: "Sel", rich: bool, svc: str) -> str:
 
 
 def variable_groups(layer: str) -> str:
-    """NOT part of the database: VariableGroup.from_et raises TypeError for every VARIABLE-GROUP element (it builds the
-    keyword arguments with NamedElement.from_et although the class is an IdentifiableElement), so the construct cannot
-    be loaded at all (parser defect outside C11, see REPORT)."""
+    """Loadable since the repair of VariableGroup.from_et in /repo (it built the keyword arguments with
+    NamedElement.from_et although the class is an IdentifiableElement and raised TypeError for every element)."""
     return X("VARIABLE-GROUPS", X("VARIABLE-GROUP", names("vg1", "Variable group", "vg desc"), ID=layer + ".VG.vg1", OID="oid.vg1"))
 
 
@@ -502,6 +501,7 @@ def ksbase(s: "Sel") -> Dict[str, Any]:
                    dict(id="KSCS.cp_complex", docref="KSCS", complex=["1", ["2", "3"], "4"], protocol="ksproto",
                         feat=("layer_comparam_complex", "ComparamInstance.value<complex>"))],
         variant_xml=s.opt("dv_base", "BaseVariantRaw.diag_variables_raw", diag_variables(B, s, True, "svc_all")) +
+        s.opt("vg_base", "BaseVariantRaw.variable_groups", variable_groups(B)) +
         s.opt("dyn_spec_base", "BaseVariantRaw.dyn_defined_spec", dyn_defined_spec(B, "tab2")) +
         s.opt("bv_pattern", "BaseVariantRaw.base_variant_pattern", base_variant_pattern(s)),
         parents=[dict(layer="ksproto", not_inherited=dict(comms=["proto_svc"], dops=["p_dop"], gnrs=["p_gnr"]) if ni else {}),
